@@ -209,6 +209,7 @@ inline int sched_main(int argc, char** argv, harness& H) {
         const unsigned p = S.preemptions();
         st->inc("executions_by_preemptions." + std::to_string(p > 4 ? 4 : p) + (p > 4 ? "+" : ""));
         if (S.spins()) st->inc("executions_with_spin");
+        if (S.fair_continued()) st->inc("executions_continued_fairly_past_step_limit");
         if (r.nontrivial) st->add_nontrivial(verif::hash_combine(phash, verif::hash_str(overrides_to_text(S.taken_overrides()))));
       }
       if (!r.ok) {
